@@ -63,6 +63,8 @@ def strat(draw, prop, tier):
         st.tuples(st.just('pose'), small, small, gen.heading_s).map(list),
         st.tuples(st.just('pose_special'), small, gen.heading_s).map(list),
         st.tuples(st.just('hold'), obj | st.just('_')).map(list),
+        st.tuples(st.just('mutate'), small, gen.obj_s(space, 1), small).map(list),
+        st.tuples(st.just('mutate'), small, gen.obj_s(space, 1), small).map(list),
         st.tuples(st.just('draw'), st.sampled_from(['h', 'v']), small, small, small, obj).map(list),
     )
     # scripted openings (the initial world is known here, so positions are exact), followed by generated ops
@@ -86,7 +88,8 @@ def strat(draw, prop, tier):
         status = draw(st.sampled_from(['CLOSED', 'CLOSED', 'LOCKED', 'OPEN']))
         pre = [['edit', yy, x, 'F'], ['pose', yy, x, hd], ['edit', y, x, f'B(D:{status}:{colour})'], ['hold', f'K:{colour}' if 'Key' in space['types'] else '_'],
                [draw(st.sampled_from(['fstep', 'cstep'])), 'ACTUATE'], ['istep', 'ACTUATE'], ['istep', 'ACTUATE']]
-    return {'space': space, 'state': sd, 'chain': list(chain), 'seed': draw(gen.seed_s), 'ops': pre + draw(st.lists(op, min_size=5, max_size=16))}
+    return {'space': space, 'state': sd, 'chain': list(chain), 'seed': draw(gen.seed_s), 'ops': pre + draw(st.lists(op, min_size=5, max_size=16)),
+            'debug': draw(st.sampled_from([None, True, False, False]))}
 
 
 def special_cells(d):
@@ -111,6 +114,14 @@ def recolour(o, colour):
 def oracle_for(prop):
     def oracle(case, ctx):
         prelude.door_first(ctx)
+        from gym_gridverse.debugging import reset_gv_debug
+        reset_gv_debug(case.get('debug'))
+        try:
+            run(case, ctx)
+        finally:
+            reset_gv_debug(None)
+
+    def run(case, ctx):
         space, chain = case['space'], case['chain']
         d = json.loads(json.dumps(case['state']))
         shape = M.shape(d)
@@ -204,6 +215,31 @@ def oracle_for(prop):
                 s.agent.position = Position(*p)
                 s.agent.orientation = objs.ori(hd)
                 d['agent'][0], d['agent'][1], d['agent'][2] = p[0], p[1], hd
+            elif kind == 'mutate':
+                # an object already in the world is changed in place through its public attributes (box content, door status, colour)
+                sp = [q for q in special_cells(d) if M.obj_type(M.cell(d, q)) in ('Box', 'Door', 'Key', 'Telepod')]
+                if not sp:
+                    continue
+                p = sp[op[1] % len(sp)]
+                cur = M.cell(d, p)
+                real = s.grid[Position(*p)]
+                t = M.obj_type(cur)
+                if t == 'Box':
+                    new = f'B({op[2]})'
+                    real.content = objs.build_obj(op[2])
+                elif t == 'Door':
+                    po = M.parse_obj(cur)
+                    status = objs.STATUSES[(objs.STATUSES.index(po['status']) + 1 + op[3] % 2) % 3]
+                    if p == (d['agent'][0], d['agent'][1]) and status != 'OPEN':
+                        continue
+                    new = f"D:{status}:{po['color']}"
+                    from gym_gridverse.grid_object import Door
+                    real.state = Door.Status[status]
+                else:
+                    col = space['colors'][op[3] % len(space['colors'])]
+                    new = recolour(cur, col)
+                    real.color = objs.color(col)
+                d['grid'][p[0]][p[1]] = new
             elif kind == 'hold':
                 o = op[1]
                 if o != '_' and not M.holdable(o):
@@ -238,14 +274,15 @@ def oracle_for(prop):
         if len(case['ops']) > 5 and case['ops'][2][0] == 'edit' and str(case['ops'][2][3]).startswith('B(D:'):
             cl.append('scripted:boxed_door')
         steps = [i for i, x in enumerate(kinds) if x in STEP_KINDS]
-        edits = [i for i, x in enumerate(kinds) if x in ('edit', 'edit_special', 'pose', 'pose_special', 'hold', 'draw')]
+        edits = [i for i, x in enumerate(kinds) if x in ('edit', 'edit_special', 'pose', 'pose_special', 'hold', 'draw', 'mutate')]
         if any(e > steps[0] and e < steps[-1] for e in edits) if steps else False:
             cl.append('edit_between_steps')
         for i, x in enumerate(kinds[:-2]):
-            if x == 'peek' and kinds[i + 1] in ('istep', 'pose', 'pose_special', 'edit', 'edit_special') and kinds[i + 2] in ('fstep', 'peek'):
+            if x in ('peek', 'fstep', 'cstep') and kinds[i + 1] in ('istep', 'pose', 'pose_special', 'edit', 'edit_special', 'mutate') and kinds[i + 2] in ('fstep', 'peek', 'cstep'):
                 cl.append('peek_change_step')
         if len(retired) >= 2 and 'istep' in kinds:
             cl.append('left_behind_then_inplace')
+        cl.append('debug:' + str(case.get('debug')))
         ctx.ev.case(case, nt=('edit_between_steps' in cl), classes=cl)
     return oracle
 
@@ -253,5 +290,5 @@ def oracle_for(prop):
 def make_check(prop, quick=250, thorough=1200):
     return Check('edited_histories', oracle_for(prop), strategy=lambda tier: strat(prop, tier), examples={'quick': quick, 'thorough': thorough}, shards={'quick': 4, 'thorough': 16},
                  rule='one world x 5-16 ops: functional step, look-ahead (result dropped), in-place transition, copying transition, interleaved with user edits through the public '
-                      'API (grid[pos] = obj, design.draw_line_*, agent pose, held item): every result inside the model outcome set (projection of this property); states left behind never change',
-                 required=['edit_between_steps', 'peek_change_step', 'left_behind_then_inplace', 'op:draw', 'op:edit_special', 'op:pose_special'] + (['scripted:drawn_door_row', 'scripted:boxed_door'] if prop in ('C09', 'C10') else []))
+                      'API (grid[pos] = obj, design.draw_line_*, box content / door status / colour of an object in place, agent pose, held item), debug checks on or off: every result inside the model outcome set (projection of this property); states left behind never change',
+                 required=['edit_between_steps', 'peek_change_step', 'left_behind_then_inplace', 'op:draw', 'op:edit_special', 'op:pose_special', 'op:mutate', 'debug:False', 'debug:True'] + (['scripted:drawn_door_row', 'scripted:boxed_door'] if prop in ('C09', 'C10') else []))
